@@ -72,6 +72,27 @@ fn run<K: BufKind>(i: &Input, obs: &mut Obs) -> Result<(), Fail> {
     let evs: Vec<(Option<usize>, Ev)> = evs.into_iter().map(|(p, e)| (Some(p), e)).collect();
     judge(&evs, i, f1, total, guard, "Decoder<ArrayBuf<N>>::push_byte", &stream)?;
     ensure!(fin.is_none(), "leftover-after-last-frame", "finalize() after the second frame returned {:?}", fin);
+    // the same two frames with a boundary call between them (finalize() or reset() right after frame 1, i.e.
+    // with nothing pending): the second frame must still get the whole buffer
+    {
+        use sml_rs::transport::Decoder;
+        let mut dec = Decoder::<K::B>::new();
+        let mut ev2: Vec<(usize, Ev)> = Vec::new();
+        drive::push_all(&mut dec, &fr1, 0, &mut ev2);
+        let between = if (i.m.len() + i.m2.len()) % 2 == 0 {
+            dec.finalize().map(|e| format!("finalize() = {:?}", e))
+        } else {
+            let n = dec.reset();
+            if i.m.len() <= i.cap && n != 0 { Some(format!("reset() = {}", n)) } else { None }
+        };
+        if i.m.len() <= i.cap {
+            ensure!(between.is_none(), "leftover-after-delivered-frame", "Decoder<ArrayBuf<{}>>: right after the delivered frame of a {}-byte payload, {}", i.cap, i.m.len(), between.unwrap_or_default());
+        }
+        drive::push_all(&mut dec, &fr2, f1, &mut ev2);
+        // whatever the boundary call reported for an overflowed frame 1 (its leftover count) is not an event here
+        let ev2: Vec<(Option<usize>, Ev)> = ev2.into_iter().map(|(p, e)| (Some(p), e)).collect();
+        judge(&ev2, i, f1, total, guard, "Decoder<ArrayBuf<N>>::push_byte with finalize() / reset() between the frames", &stream)?;
+    }
     // decode_streaming
     let ds = drive::decode_streaming_fn::<K>(&stream, 1).map_err(|m| Fail::new("decode-streaming-step-cap", m))?;
     let ds: Vec<(Option<usize>, Ev)> = ds.into_iter().map(|e| (None, e)).collect();
